@@ -158,6 +158,17 @@ CLAIMED = {
               'one defect found and fixed'),
         technique='CBMC bounded model checking of setter call sequences and the clock gate + goto call-graph reachability',
         design='3/C20'),
+    'C10': dict(
+        text=('Bounded model checking with cbmc bounds / pointer / pointer-overflow checks: __tok_spec on every format of '
+              'the form percent + concrete modifier prefix + symbolic tail in an exact-size object (per-back-edge '
+              'unwinding bounds prove no other modifier loop is taken); dt_strpd on enumerated formats with arbitrary '
+              'input bytes in exact-size objects (end pointer inside the input); dt_strfd on enumerated formats with '
+              'arbitrary in-range values and buffers of 1..11 bytes (never writes or reports more than the buffer holds).'),
+        note=('formats enumerated (a symbolic format byte re-enters the tokeniser loops); strings <= 4 (quick) / 8 bytes; '
+              'date-time, time and duration drivers, dt_io_write, the flex/bison front end and the needle search are not '
+              'yet covered; two defects found and fixed'),
+        technique='CBMC memory-safety checking of tokeniser, date parser and date formatter on exact-size objects',
+        design='3/C10'),
 }
 
 NA = {}
